@@ -279,9 +279,12 @@ def unpad_strategy(tier):
                 X[-1 - (1 + pos % (q - 1))] ^= 1 + val % 255
             elif corrupt == 4:
                 X = bytearray((bytes([val]) + body + tail)[: nblk * bl] or b"\0" * bl)
+            elif corrupt == 6 and q > 1:
+                # a well-formed pad tail that is longer than the data handed over (the count cannot be honoured)
+                X = bytearray(tail[-(1 + pos % (q - 1)):])
             return {"scheme": s, "bl": bl, "X": bytes(X)}
         return st.builds(build, st.sampled_from(["pkcs7", "x923"]), st.binary(min_size=1, max_size=40), gen.uint(0, 300),
-                         gen.uint(0, 5), gen.uint(0, 300), gen.uint(0, 255), gen.uint(1, 3))
+                         gen.uint(0, 6), gen.uint(0, 300), gen.uint(0, 255), gen.uint(1, 3))
     return gen.pick((2, st.sampled_from([1, 2, 8, 16])), (1, gen.uint(1, 40)), (1, st.sampled_from([64, 128, 255]))).flatmap(for_bl)
 
 
@@ -293,6 +296,12 @@ def unpad_cases(tier, rnd):
             for t in itertools.product(range(256), repeat=bl * nblk) if bl * nblk <= 2 else \
                     itertools.product([0, 1, 2, 3, 4, 5, 255], repeat=bl * nblk):
                 yield {"scheme": s, "bl": bl, "X": bytes(t)}
+        # pad tails cut short: the count byte asks for more than there is
+        for bl in (2, 3, 4, 8, 16):
+            for q in range(2, bl + 1):
+                tail = bytes([q]) * q if s == "pkcs7" else b"\0" * (q - 1) + bytes([q])
+                for keep in range(1, q):
+                    yield {"scheme": s, "bl": bl, "X": tail[-keep:]}
 
 
 # ---------------------------------------------------------------------------
@@ -392,7 +401,8 @@ FACETS = [
     Facet("unpad-tiny-exhaustive", check_unpad, cases=unpad_cases, exhaustive=True, distinct=True,
           nontrivial=lambda c: len(c["X"]) > 0, classify=lambda c: (c["scheme"], "valid" if R.valid_bytepad(c["scheme"], c["X"], c["bl"])[0] else "malformed"),
           shards={"quick": 4, "thorough": 8},
-          rule="PKCS#7/X9.23 remove on every 1- and 2-byte string with block length 1 and 2 (+ small alphabets on 3-4 bytes thorough)"),
+          rule="PKCS#7/X9.23 remove on every 1- and 2-byte string with block length 1 and 2 (+ small alphabets on 3-4 bytes thorough), and every "
+               "well-formed pad tail cut shorter than its count for block lengths 2..16"),
     Facet("unpad-malformed", check_unpad, strategy=unpad_strategy, budget={"quick": 4000, "thorough": 80000}, fuzz={"thorough": 120000},
           nontrivial=lambda c: len(c["X"]) > 0,
           classify=lambda c: (c["scheme"], "valid" if R.valid_bytepad(c["scheme"], c["X"], c["bl"])[0] else "malformed"),
